@@ -28,6 +28,7 @@ inductive Obs where
   | onConnectFail (at_ : Nat)
   | onConnect (rc : Nat) (at_ : Nat)
   | onDisconnect (rc : Nat) (at_ : Nat)
+  | userDisconnect (at_ : Nat)      -- the application called disconnect() (inside a callback)
   | ret (rc : Int)
   | raised          -- the first attempt failed and retry_first_connection is off: OSError leaves loop_forever()
   | scriptEnd       -- the script is exhausted (the harness stops the run here)
@@ -72,30 +73,32 @@ def connLife (c : Cfg) (s : St) (o : Outcome) : St × Int × Bool :=
   | .eof t d =>
     let s := { s with now := s.now + t }
     let s := s.emit (.onDisconnect 7 s.now)
-    let s := if d.inOnDisconnect then { s with disconnected := true } else s
+    let s := if d.inOnDisconnect then ({ s with disconnected := true }).emit (.userDisconnect s.now) else s
     (s, 7, false)
   | .connackRefused rc t d =>
     let s := { s with now := s.now + t }
-    let s := s.emit (.onConnect rc s.now)
-    let s := if d.inOnConnect then { s with disconnected := true } else s
+    -- MQTT 5: result 1 is shown as reason code 132 (Unsupported protocol version)
+    let s := s.emit (.onConnect (if s.proto = 5 ∧ rc = 1 then 132 else rc) s.now)
+    let s := if d.inOnConnect then ({ s with disconnected := true }).emit (.userDisconnect s.now) else s
     -- _handle_connack returns CONN_REFUSED (1..5) / PROTOCOL; _loop_rc_handle closes and reports
     let code : Nat := if rc > 0 ∧ rc < 6 then 5 else 2
     let shown : Nat := if s.disconnected then 0 else code
     let s := s.emit (.onDisconnect shown s.now)
-    let s := if d.inOnDisconnect then { s with disconnected := true } else s
+    let s := if d.inOnDisconnect then ({ s with disconnected := true }).emit (.userDisconnect s.now) else s
     (s, (if shown = 0 then 0 else code), false)
   | .accepted t life d =>
     let s := { s with now := s.now + t, delay := none }
     let s := s.emit (.onConnect 0 s.now)
     if d.inOnConnect then
       -- DISCONNECT is queued inside the callback and written by the next _loop() iteration (no time passes)
-      let s := { s with disconnected := true }
+      let s := ({ s with disconnected := true }).emit (.userDisconnect s.now)
       let s := s.emit (.onDisconnect 0 s.now)
+      let s := if d.inOnDisconnect then s.emit (.userDisconnect s.now) else s
       (s, 7, false)
     else
       let s := { s with now := s.now + life }
       let s := s.emit (.onDisconnect 7 s.now)
-      let s := if d.inOnDisconnect then { s with disconnected := true } else s
+      let s := if d.inOnDisconnect then ({ s with disconnected := true }).emit (.userDisconnect s.now) else s
       (s, 7, false)
   | .downgrade t => ({ s with now := s.now + t }, 0, true)
 
@@ -108,17 +111,11 @@ def run (c : Cfg) : (fuel : Nat) → (script : List Outcome) → (first : Bool) 
     | .refuse d =>
       let s := s.emit (.attempt s.now false)
       let s := s.emit (.onConnectFail s.now)
-      let s := if d.inConnectFail then { s with disconnected := true } else s
+      let s := if d.inConnectFail then ({ s with disconnected := true }).emit (.userDisconnect s.now) else s
       if first ∧ !c.retryFirst then s.emit .raised
-      else if first then
-        -- phase 1: `_reconnect_wait()` then loop while state == CONNECT_ASYNC
-        let s := reconnectWait c s
-        if s.disconnected then
-          -- state is no longer CONNECT_ASYNC: phase 2 starts without a socket: _loop() → CONN_LOST → should_exit
-          s.emit (.ret 7)
-        else run c fuel rest true s
       else
-        -- phase 2: after the failed reconnect() the next _loop() finds no socket and returns CONN_LOST
+        -- reconnect() has left MQTT_CS_CONNECT_ASYNC (state CONNECTING): the first loop ends, and the next
+        -- _loop() finds no socket and returns CONN_LOST; then the usual exit test / back-off / retry
         if s.disconnected ∨ !c.rof then s.emit (.ret 7)
         else
           let s := reconnectWait c s
@@ -127,9 +124,20 @@ def run (c : Cfg) : (fuel : Nat) → (script : List Outcome) → (first : Bool) 
       if s.proto = 4 ∧ c.rof then
         let s := s.emit (.attempt s.now true)
         -- in-handler reconnect(): no wait, delay register untouched
-        run c fuel rest false { s with now := s.now + t, proto := 3 }
+        let s := { s with now := s.now + t, proto := 3 }
+        match rest with
+        | .refuse _ :: _ =>
+          -- the socket factory fails inside the CONNACK handler: OSError leaves loop_read(), _loop() and loop_forever()
+          (s.emit (.attempt s.now false)).emit .raised
+        | _ => run c fuel rest false s
+      else if s.proto = 4 then
+        -- MQTT 3.1.1 with reconnect_on_failure off: _handle_connack returns MQTT_ERR_PROTOCOL before any callback
+        let s := s.emit (.attempt s.now true)
+        let s := { s with now := s.now + t }
+        let s := s.emit (.onDisconnect 2 s.now)
+        s.emit (.ret 2)
       else
-        -- not MQTT 3.1.1 (or reconnect_on_failure off): an ordinary refused CONNACK (rc = 1)
+        -- not MQTT 3.1.1: an ordinary refused CONNACK (rc = 1)
         run c fuel (.connackRefused 1 t {} :: rest) first s
     | o =>
       let s := s.emit (.attempt s.now true)
